@@ -4,6 +4,7 @@ package main
 import (
 	"fmt"
 	"os"
+	"sync"
 
 	_ "github.com/twpayne/go-geom/encoding/geojson"
 	_ "github.com/twpayne/go-geom/encoding/igc"
@@ -22,6 +23,25 @@ func main() {
 	if !ok {
 		fmt.Println("SYM-ERROR unknown harness", name)
 		os.Exit(3)
+	}
+	if os.Getenv("SYM_CONCURRENT") != "" {
+		// confirmation of a "write to package-level state" finding: the same call from several goroutines
+		// at once, under the race detector (the binary is built with -race for this mode)
+		sym.SetConcurrent()
+		var wg sync.WaitGroup
+		for i := 0; i < 4; i++ {
+			wg.Add(1)
+			go func() {
+				defer wg.Done()
+				defer func() { recover() }()
+				for k := 0; k < 50; k++ {
+					f()
+				}
+			}()
+		}
+		wg.Wait()
+		fmt.Println("SYM-CONCURRENT-DONE", name)
+		return
 	}
 	defer func() {
 		if r := recover(); r != nil {
